@@ -159,3 +159,28 @@ _r2("C10", "per-label centre finder, compute_batches join-or-open test and the p
 _r2("C19", "second whole-tree scan: every uninitialising allocation (np.empty, empty_like, ndarray(shape), ...) must be completely written before it is read (per-site Coq obligation in Gen/AllocSites.v) and result caches keyed on identity / paths are rejected by name; in-place-overwrite and file-rewrite history probes",
     "write-before-read characterised exactly (heap-independent iff every cell is stored to), covering lemmas for the fill / full-assignment / enumerate-loop / cursor-loop patterns, every uninitialised allocation of the tree heap-independent; an identity-keyed cache is exactly what the overwrite probe detects.",
     "MPI receive-buffer semantics trusted; syntactic recognisers and allocator / cache-idiom lists of translator/sites.py trusted.")
+
+# ---- round 3 (more of the code regenerated; monotone likelihood)
+def _r3(pid, tech_add, text_add, note_add, note_replace=None):
+    t = CLAIMED[pid]
+    n = t[2]
+    if note_replace:
+        assert note_replace[0] in n, (pid, note_replace[0])
+        n = n.replace(note_replace[0], note_replace[1])
+    CLAIMED[pid] = (t[0] + "; " + tech_add, t[1] + " Round 3: " + text_add, (n + " " + note_add).strip(), t[3])
+_r3("C20", "disorder.transitions (both branches and the `len(assignments.shape) == 1` test) regenerated from enspara/cards/disorder.py (translator/tr_disorder.py -> Gen/DisorderGen.v over Base/DisorderBase.v + PySlice.v) and proved equal to the specification for all inputs",
+    "the generated 1-D and 2-D/ragged branches return (never raise) exactly the frames n with row[n] <> row[n+1], ascending, one output row per trajectory; correspondence compares the implementation with both the hand model and the generated definitions.",
+    "NumPy/RaggedArray vocabulary of Base/DisorderBase.v (where, bincount minlength, RaggedArray(flat, lengths), Python slices) trusted; broadcasting of a length-1 operand in `-` treated as an error.")
+_r3("C16", "translator/tr_spectrum.py regenerates eigenspectrum (n_eigs guard, dense/ARPACK decision, sort, slicing, normalisation), calc_imp_times' eigenspectrum call and formula, implied_timescales' loop, synthetic_ensemble and the MSM.save/load attribute-file table (Gen/MsmSpecGen.v, Gen/MsmAuxGen.v), each proved equal to the model (Proof/MsmSpecGenProofs.v, Proof/MsmAuxGenProofs.v)",
+    "the spectral (sorted, permutation of the solver's pairs, first vector sums to one, stationary), timescale-formula (-lag/ln lambda_{k+1}, stationary eigenvalue dropped), ensemble (left multiplication, what is recorded) and save/load-table (each attribute written once and read back through the same manifest key with an exact writer) theorems are stated for the definitions regenerated from the source.",
+    "synthetic_trajectory not modelled; NumPy vocabulary of Base/MsmSpecBase.v / MsmAuxBase.v and 'precision=p means p significant digits' trusted.")
+_r3("C14", "translator/tr_mpi.py regenerates the index arithmetic and decision logic of enspara/mpi/ops.py, _kcenters_iteration_mpi, the mpi_mode branches of kcenters, ctr_ids_mpi, _msq, the MPI proposal and the PAM accept path (Gen/MpiGen.v over Base/MpiGenBase.v, slices via Base/PySlice.v); Proof/MpiGenProofs.v proves every generated definition equal to Model/Mpi.v (mean up to ==); the generated definitions are evaluated in every correspondence case",
+    "x[r::P] is the model's stripe and x[r::P] = news its inverse; generated convert_local_indices / assemblers / max / mean / distribute_frame / randind / k-centers iteration, guard, loop / ctr_ids / proposal / PAM update equal the model; the serial-equivalence clause is restated on the generated definitions.",
+    "glue statements (buffer allocation, dtype casts, asserts, logging, md.Trajectory wrapping) and _find_cluster_centers_mpi are pinned as text; the reading of NumPy/RaggedArray/mpi4py calls as the MpiGenBase vocabulary is trusted and exercised by the correspondence; distribute_frame / PAM step equalities assume non-empty local data on every rank.")
+_r3("C12", "fold-invariant coordinate-ascent proof over the loop skeleton (Proof/PrinzMono.v); monotone-bounded convergence of the likelihood values (stdlib growing_cv); per-sweep likelihood followed on both real implementations",
+    "every diagonal / pairwise update and every sweep of the generated code is monotone in the log-likelihood of T = X/rowsum and strictly increasing unless X is unchanged; equality exactly at fixed points, which for strongly connected counts satisfy the Prinz equations; the model returned under any stopping rule has likelihood >= the transpose estimate; the likelihood values along the iteration converge and per-sweep gains tend to 0.",
+    "hypotheses of the monotonicity theorems: X has the support of C+C^T (the initial state has it) and every state receives a count (follows from strong connectivity; a witness shows it is needed - the real code yields a NaN row / AssertionError on a source state, which is outside the property).",
+    note_replace=("partial: convergence, global optimality for n >= 3,", "partial: convergence of the matrices X_k, global optimality for n >= 3,"))
+_r3("C18", "the Python layer regenerated too (translator/tr_infopy.py: joint_counts, mutual_information, _validate_feature_states_array, channel_capacity_normalization, mi_matrix, weighted_mi, shannon_entropy, kl_divergence 1-D/2-D -> Gen/MutualInfoGen.v, Gen/EntropyGen.v over Base/InfoPyBase.v), each proved equal to the model for all inputs; the correspondence also evaluates the regenerated joint_counts, pooling loop and divisor grid in Coq",
+    "the whole information-theory layer of the anchors (Cython kernel and Python layer) is regenerated from /repo and tied to the model by all-input equalities, and the MI/KL laws are also stated on the generated text (89 theorems).",
+    "trusted: the NumPy semantics written down in Base/InfoPyBase.v (axes/broadcast, masked ufuncs, promote_types/astype - exercised against NumPy by the jc stream over all 64 dtype pairs - and IEEE nan/inf rules); np.bincount's ValueError on negative ids and np.vstack's on ragged rows not modelled; mi_matrix_serial and the NMI/APC helpers not covered.")
